@@ -34,6 +34,12 @@ def f5(seq: Optional[List[int]], mode: Optional[Literal["a", "b"]], *, table: Op
     return ("f5", seq, mode, table)
 
 
+def f6(z: float = 1.0, w: Optional[float] = 4.0, *, u: int | None, v: "str | None" = None):
+    """float parameters that a config may give as the int equal to their default; PEP 604 optionals, one without default."""
+    CALLS.append(("f6", dict(z=z, w=w, u=u, v=v)))
+    return ("f6", z, w, u, v)
+
+
 class K1:
     """A class with two methods."""
 
@@ -60,6 +66,8 @@ PARAMS = {
     "f3": [("lit", "x", "y", "y"), ("n", 3, "9", 9)],
     "f4": [("values", 1, "9", 9), ("items", "i", "zed", "zed"), ("keys", None, "5", 5), ("get", False, "true", True)],
     "f5": [("seq", None, "[3, 4]", [3, 4]), ("mode", None, "b", "b"), ("table", None, '{"k": 2}', {"k": 2})],
+    # fifth field: the value as a config writes it when that differs from the converted value (an int for a float parameter)
+    "f6": [("z", 1.0, "1", 1.0, 1), ("w", 4.0, "4", 4.0, 4), ("u", None, "3", 3), ("v", None, "txt", "txt")],
     "K1.__init__": [("p", REQUIRED, "4", 4), ("q", 2, "6", 6)],
     "K1.m1": [("r", 1, "8", 8)],
     "K1.m2": [("s", REQUIRED, "word", "word"), ("t", None, "5", 5)],
